@@ -12,3 +12,75 @@ claim("C16",
       "Python str modelled as list of code points.",
       "Coq proof (induction on the name) + exhaustive model/implementation correspondence",
       "DESIGN.md section 7, C16")
+
+_READER_NOTE = ("Trusted: Coq kernel + vm_compute; the hand-written byte-level reader model (Model/Tokens.v, SegState.v, "
+                "Layout.v, Reader.v) mirrors reader.py / tdms_segment.py / base_segment.py / daqmx.py / tdms.py function by "
+                "function and is tied to the implementation by evaluating it inside Coq on the very bytes the "
+                "implementation reads (well-formed and malformed streams) on every run; the independent Python encoder and "
+                "reference meaning (harness/tdmsgen.py); NumPy byte reinterpretation and UTF-8 decoding are observed as "
+                "bytes, not modelled. ")
+
+claim("C01",
+      "Proof (partial) + correspondence: the refinement chain of `rd_all (ser f) = meaning f` is proved layer by layer "
+      "(Props/C01.v: field codecs in both byte orders, value-byte canonicalisation involution, lexer inverts serialiser for "
+      "metadata blocks, receivers concatenate in file order); the composed theorem is not finished and is labelled partial. "
+      "The executable reader model is validated against TdmsFile.read on every run over random well-formed files (all 17 "
+      "types x contiguous/interleaved x chunkings x byte orders x inheritance encodings) and over single-fault malformed "
+      "files (accept/reject and content), and the implementation is compared with an independent reference meaning.",
+      _READER_NOTE + "The end-to-end theorem is partial: see Props/C01.v header.",
+      "Coq proof of the codec/lexer layers + in-Coq reader model vs implementation correspondence + independent-encoder oracle",
+      "DESIGN.md section 7, C01")
+claim("C02",
+      "Proof (partial) + exhaustive correspondence: theorems about the mechanism model of read_segment_objects "
+      "(Props/C02.v: index cache transparency; positional update equals update-by-path under the no-duplicate invariant; "
+      "explicit re-encoding reproduces the object list). The implementation is checked on ALL encodings of 2 segments x 2 "
+      "channels and (thorough) all 35 937 of 3 segments x 2 channels, plus sampled larger streams: each valid stream reads "
+      "like its reference meaning, like its fully explicit re-encoding, and lazily like eagerly; forbidden encodings raise; "
+      "the Coq reader model is evaluated on every stream.",
+      _READER_NOTE + "Aliasing between segment objects is not expressible in the pure model; retroactive mutation is "
+      "caught by the lazy/eager/explicit comparison on the implementation.",
+      "Coq proof on the state-machine model + exhaustive small-bound enumeration against implementation and model",
+      "DESIGN.md section 7, C02")
+claim("C03",
+      "Proof (partial) + differential run: model-level agreement of access paths is a corollary of the lazy-read theorems "
+      "(Props/C04.v) and of the receiver concatenation lemma (Props/C03.v); every access path of the public API in every "
+      "configuration {read, open} x {path, stream} x {memmap} x {raw_timestamps} is compared with the eager baseline on "
+      "generated files (scaled, truncated, DAQmx), chunk offsets checked as running counts; the baseline is compared with "
+      "the Coq reader model.",
+      _READER_NOTE + "memmap_dir is a storage choice the value model cannot exhibit (differential run only).",
+      "Coq corollaries of the lazy-read theorems + cross-path differential testing against the eager baseline and the model",
+      "DESIGN.md section 7, C03")
+claim("C06",
+      "Proof (partial) + exhaustive cutting: lemmas for the prefix argument (reads ending before the cut are unchanged; "
+      "final-chunk length arithmetic gives counts <= complete counts; Props/C06.v); every cut offset 4..len of every "
+      "generated file is read eagerly and lazily and checked for prefix-ness, retention of earlier segments, len == values "
+      "returned, lazy == eager and the incomplete flag; the Coq reader model (including file_status) is evaluated on the cuts.",
+      _READER_NOTE + "The 'exactly when' clause for the incomplete flag is read for explicitly declared lengths.",
+      "Coq lemmas on truncation arithmetic + every-cut-offset enumeration against oracle and model",
+      "DESIGN.md section 7, C06")
+claim("C09",
+      "Proof (partial) + correspondence with files on disk: the index stream advances by lead-in + metadata length per "
+      "segment (Props/C09.v) and, for serialised metadata, the tokens read from the index equal those read from the data "
+      "file (lexer round trip); generated files are read with and without a matching index (encoder-made and writer-made, "
+      "also with truncated data) through read/open/read_metadata and index-only; the Coq model reads the metadata from the "
+      "index bytes and must agree.",
+      _READER_NOTE + "Index-only opening with the length-unknown marker is outside the satisfiable domain.",
+      "Coq lemmas on index positions + on-disk differential run + model reading metadata from the index bytes",
+      "DESIGN.md section 7, C09")
+claim("C11",
+      "Proof (partial) + direct-addressing oracle: the row matrix of a DAQmx buffer is strided direct addressing "
+      "(Props/C11.v); generated DAQmx layouts (1-3 buffers of differing widths/lengths, 1-4 channels, 1-3 scalers, digital "
+      "lines, typed and raw channels, multi-segment, both byte orders, random bytes) are decoded by the implementation and "
+      "compared with the bytes at chunk_base + buffer_base + i*width + offset; lazy windows/chunks equal eager slices; "
+      "truncated final chunks give complete rows only; the Coq DAQmx decoder is evaluated on the same bytes.",
+      _READER_NOTE,
+      "Coq lemma (strided rows) + direct-addressing oracle + in-Coq DAQmx decoder correspondence",
+      "DESIGN.md section 7, C11")
+claim("C15",
+      "Proof (partial) + correspondence: every field and value written in either byte order decodes to the same thing "
+      "(Props/C15.v); each generated content is serialised under four byte-order assignments (generated, all LE, all BE, "
+      "random per segment) and must read identically (eager, lazy, converted timestamps) and equal the reference meaning; "
+      "the Coq reader model is evaluated on every variant.",
+      _READER_NOTE,
+      "Coq codec lemmas for both byte orders + per-segment byte-order transcoding differential run + model correspondence",
+      "DESIGN.md section 7, C15")
